@@ -55,6 +55,9 @@ class ConstEval:
             if t[1].endswith("::BITS"):
                 return 64
             return self.lookup(t[1], depth)
+        if h == "un" and t[1] == "!":
+            a = self.ev(t[2], depth)
+            return None if not isinstance(a, int) else (~a) & ((1 << 64) - 1)
         if h == "op":
             a = self.ev(t[2], depth)
             b = self.ev(t[3], depth)
@@ -374,7 +377,7 @@ def r02_2(ctx, rr):
     b = F.one(r"^rank_sel::select_adapt::SpanType::from_span$")
     import astnorm
     arms = []
-    chains = [astnorm.int_classes(n) for n in walk(b.body) if n.get("k") == "If"]
+    chains = [astnorm.int_classes(n, evalf=const_evalf(F, b)) for n in walk(b.body) if n.get("k") == "If"]
     chains = [c for c in chains if c and len(c) >= 3]
     m = [n for n in walk(b.body) if n.get("k") == "Match"]
     if chains:
@@ -444,7 +447,7 @@ def r02_2(ctx, rr):
     gt = Termizer(F, inv["get"]).term(inv["get"].body)
     gm = None
     if gt[0] == "op" and gt[1] == "&":
-        gm = CE.ev(gt[2]) if gt[2][0] == "int" else CE.ev(gt[3])
+        gm = CE.ev(gt[3]) if gt[2][0] == "var" else CE.ev(gt[2])
     rr.instances += 1
     rr.check(gm == (1 << 62) - 1 and (gm & (s32 | s64)) == 0, "Inventory::get:mask", "Inventory::get must clear exactly the two tag bits (mask 2^62 - 1); found %s" % (hex(gm) if gm else None), inv["get"].span)
 
